@@ -64,6 +64,18 @@ pub fn templates() -> Vec<Template> {
     ]
 }
 
+/// The sweep alphabet plus templates that only the sharp drivers use: slot 3 of X is written by
+/// nobody but these (the constructor writes slots 0 and 1), so after a destroy / re-create an older
+/// in-block version of it lies *below* the reset marker.
+pub fn templates_ext() -> Vec<Template> {
+    let x = x_addr();
+    let mut v = templates();
+    v.push(tpl("write(X.3=8)(e0)", eoa(0), &["X"], move |n| call(eoa(0), n, x, &[word(3), word(8)])));
+    v.push(tpl("write(X.3=9)(e2)", eoa(2), &["X"], move |n| call(eoa(2), n, x, &[word(3), word(9)])));
+    v.push(tpl("probeslot(X,3)(e3)", eoa(3), &["X"], move |n| call(eoa(3), n, contract(8), &[word_addr(x), word(3)])));
+    v
+}
+
 pub fn jobs(tier: Tier) -> Vec<Job> {
     let db = world();
     let templates = templates();
@@ -115,7 +127,13 @@ pub fn jobs(tier: Tier) -> Vec<Job> {
         &["touch-empty(E)(e0)", "probe(E)(e3)"],
         &["deploy(Z)(e1)", "probeslot(Z,0)(e3)"],
         &["recreate(X)(e2)", "write(X.0=7)(e0)"],
+        // a slot version below the reset marker, a write after the re-creation, a late reader
+        &["write(X.3=8)(e0)", "destroy(X)(e1)", "recreate(X)(e2)", "probeslot(X,3)(e3)"],
+        &["write(X.3=8)(e0)", "destroy(X)(e1)", "recreate(X)(e2)", "write(X.3=9)(e2)", "probeslot(X,3)(e3)"],
+        &["write(X.3=8)(e0)", "destroy(X)(e1)", "write(X.3=9)(e2)", "probeslot(X,3)(e3)"],
+        &["destroy(X)(e1)", "recreate(X)(e2)", "write(X.3=9)(e2)", "probeslot(X,3)(e3)"],
     ];
+    let templates = templates_ext();
     for labels in sharp {
         let seq: Vec<usize> = labels.iter().map(|l| templates.iter().position(|t| t.label == *l).unwrap()).collect();
         for spec in [SpecId::BERLIN, SpecId::CANCUN] {
